@@ -1,6 +1,6 @@
 import Chain33Model.Proofs.C15Sub
 /-!
-C15 — lifting the step lemmas to op lists (`run`).
+C15 — lifting the step lemmas to op lists (`run`): the reachable-state invariant `Inv`.
 -/
 set_option linter.unusedSectionVars false
 set_option linter.unusedSimpArgs false
@@ -8,28 +8,33 @@ namespace C15
 section
 variable {σ κ : Type} [DecidableEq σ] [DecidableEq κ] (c : Cfg σ κ)
 
-theorem mainOK_run (ops : List (Op σ)) (hops : ∀ op ∈ ops, GenesisOK op) {s : State σ κ}
-    (h : MainOK s) : MainOK (run c s ops) := by
+/-- invariant of every reachable state: well-formed keys, main ledger within
+`[0, MaxTokenBalance]`, every sub-account field within `[0, MaxTokenBalance]`. -/
+def Inv (c : Cfg σ κ) (s : State σ κ) : Prop :=
+  WF c s ∧ MainOK s ∧ SubBound 9000000000000000000 s
+
+theorem inv_init : Inv c (State.init : State σ κ) := ⟨wf_init c, mainOK_init, allv_nil _⟩
+
+theorem inv_step {s : State σ κ} (op : Op σ) (h : Inv c s) : Inv c (step c s op).1 :=
+  ⟨wf_step c op h.1, mainOK_step c op h.2.1, subB_step c s op h.2.2⟩
+
+theorem inv_run (ops : List (Op σ)) {s : State σ κ} (h : Inv c s) : Inv c (run c s ops) := by
   induction ops generalizing s with
   | nil => exact h
-  | cons op ops ih =>
-    exact ih (fun o ho => hops o (List.mem_cons_of_mem _ ho))
-      (mainOK_step c op (hops op List.mem_cons_self) h)
+  | cons op ops ih => exact ih (inv_step c op h)
 
-theorem supply_run (ops : List (Op σ)) (hops : ∀ op ∈ ops, GenesisOK op) {s : State σ κ}
-    (hw : WF c s) (hm : MainOK s) : supply (run c s ops) = supply s + granted c s ops := by
+theorem supply_run (ops : List (Op σ)) {s : State σ κ} (h : Inv c s) :
+    supply (run c s ops) = supply s + granted c s ops := by
   induction ops generalizing s with
   | nil => simp [run, granted]
   | cons op ops ih =>
-    have hop := hops op List.mem_cons_self
-    have := ih (fun o ho => hops o (List.mem_cons_of_mem _ ho)) (wf_step c op hw)
-      (mainOK_step c op hop hm)
+    have := ih (inv_step c op h)
     simp only [run, granted]
-    rw [this, supply_step c hw hm op hop]
+    rw [this, supply_step c h.1 h.2.1 op]
     omega
 
-theorem nonNeg_of_bounds {s : State σ κ} {B : Int} (hm : MainOK s) (hs : SubB B s.sub) : NonNeg s :=
-  ⟨allv_mono hm (fun _ _ h => ⟨h.1, h.2.2⟩), allv_mono hs (fun _ _ h => ⟨h.1, h.2.2.1⟩)⟩
+theorem nonNeg_of_inv {s : State σ κ} (h : Inv c s) : NonNeg s :=
+  ⟨allv_mono h.2.1 (fun _ _ h => ⟨h.1, h.2.2⟩), allv_mono h.2.2 (fun _ _ h => ⟨h.1, h.2.2.1⟩)⟩
 
 end
 end C15
